@@ -385,7 +385,7 @@ def run(rep):
         'explanation': 'reachable states enumerated by explicit-state BFS over the real objects; clone/subtree and the follow-up mutations are executed on the implementation in every state',
     })
     rep.assumptions += ['changes are API-level assignments and mutators, not in-place mutation of shared attribute values (copies are shallow by design)',
-                        'nested root selections are excluded (the statement does not define their hierarchy)',
+                        'for root selections that reach a task twice (a task with one of its ancestors, a task named twice) only this is demanded: a copy is returned that holds each selected task once, as new objects owned by the copy, source unchanged - where the nested task hangs is left open',
                         'outside tasks gain mirror links to the copy by design; their own lists are not part of the source WBS']
 
 
